@@ -218,20 +218,25 @@ _p("C15", modules=["keys", "quic_session_c"], level="proof",
    not_under_contract=["QuicSession.check_key_epoch (epoch counting)", "QUIC v2 label set"])
 
 _p("C03", modules=["robustness", "demux", "ports", "quic_output", "main_run", "quic_session_c", "quic_keystate"], level="other",
-   technique="contract-based deductive verification: exception freedom for arbitrary bytes / states with library calls allowed to fail; routing + frame obligations for isolation",
+   technique="contract-based deductive verification: exception freedom for arbitrary bytes / states with library calls allowed to fail; representation invariant of the QUIC key state; routing + frame obligations for isolation",
    level_text="Proved: for ANY TLS record (>= its 5 header bytes), ANY session flag state, ANY version state and a decryptor that fails or returns arbitrary bytes, the "
               "record reaches handle_tls_record through get_tls_records without an exception leaving get_tls_records (all nine record handlers executed from their real "
               "ASTs, the two parsing loops cut at invariants with variants); without a decryptor an application-data record adds nothing to the export (the gate) and "
               "only (decryptor output, the record, its direction) is ever exported; main.handle_quic_packet raises nothing for any non-empty UDP payload; Session.generate_keys raises at most ValueError (a secret with an odd number of hex "
               "digits) for any subset of key-log lines, labels and suites, and that exception is stopped by the per-record barrier; a DSB's text "
-              "never reaches the packet parser; a QUIC session without output contributes nothing; isolation = C04's routing and frame obligations.",
-   level_note="level 'other': NOT covered - exception freedom inside QuicSession.handle_packet / extract_quic_packet / decrypt_packet (the dissector itself IS under contract in the thorough tier only - extract_quic_packet raises nothing and always consumes input for arbitrary datagrams, about 5 minutes - "
-              "but its callers' loops are not), and the 'at most a prefix of the true plaintext' "
-              "clause, which is a statement about AEAD/CBC under wrong keys",
-   design_ref="DESIGN.md 4 C03",
-   explanation="The TLS record path and the UDP entry point are proved exception-free for all inputs; the QUIC dissector path and key-derivation failures are listed as not under contract.",
-   assumptions=["every library call may raise on any input (cryptography, dpkt)"], trusted_base=[],
-   not_under_contract=["QuicSession.handle_packet loop / decrypt_packet's decryptor lookup before its try block", "extract_quic_packet in the QUICK tier (thorough only)"])
+              "never reaches the packet parser; a QUIC session without output contributes nothing. QUIC: the key-state invariant 'a usable header-protection key of a level "
+              "implies that level's decryptor' is preserved by set_tls_decryptors for EVERY subset of the connection's key-log lines and every suite (dev_quic_keys and "
+              "QuicDecryptor.__init__ executed inline); under it decrypt_packet raises nothing for any packet the dissector can produce; QuicSession.handle_packet's loop over "
+              "coalesced packets raises nothing and terminates given the dissector's progress contract; QUICOutputbuilder.build raises nothing for every frame kind handle_frame "
+              "buffers, including the Version Negotiation pseudo frame (source packets built by the real constructors); isolation = C04's routing, frame and separation obligations.",
+   level_note="level 'other': the dissector's own exception freedom / progress / 'protected packet only with a usable hp key' is discharged in the THOROUGH tier only (about 7 minutes); "
+              "the 'at most a prefix of the true plaintext' clause for wrong keys is a statement about AEAD/CBC and is not reached; the lifting from per-function exception freedom to "
+              "'the run never fails' is the call graph of run() (each callee under contract) and is argued, not machine-checked",
+   design_ref="DESIGN.md 4 C03, 8.8",
+   explanation="Every function between run()'s packet loop and the writers is exception-free by a discharged contract (TLS path, QUIC key state, QUIC builder) except the dissector, whose contract runs in the thorough tier.",
+   assumptions=["every library call may raise on any input (cryptography, dpkt), except: AEAD constructors accept keys of their allowed lengths, HKDFExpand(length).derive returns `length` bytes"], trusted_base=[],
+   bounded=[{"function": "QuicSession.set_tls_decryptors (key-state invariant)", "bound": "each of the five QUIC-relevant labels at most once per connection (all 32 subsets), one foreign label", "counted_as": "bounded in the multiplicity of labels, unbounded in all values"}],
+   not_under_contract=["extract_quic_packet in the QUICK tier (thorough only)"])
 
 _p("C01", modules=["record_protection", "framing", "framing_unbounded", "keys", "cipher_suites", "tcp_output", "robustness", "metadata"], level="other",
    technique="contract-based deductive verification of every link of the TLS pipeline (per-function contracts; primitives uninterpreted); composition on paper",
@@ -261,7 +266,8 @@ _p("C02", modules=["quic_session_c", "quic_keystate", "quic_output", "demux", "q
               "handshake state; CRYPTO reassembly delivers the stream bytes in order for every arrival order (BOUNDED to 3 fragments); output grouping per capture timestamp "
               "with direction and payload (transition relation + final flush).",
    level_note="level 'other': extract_quic_packet's header FIELD extraction (DCID/SCID/token/length fields, coalesced packets) is not specified by a contract - only its exception "
-              "freedom and progress are (thorough tier); check_key_epoch's epoch bookkeeping is under contract (quic.key_epoch); the composition into 'one output datagram per input datagram' is on paper; AEADs are uninterpreted",
+              "freedom, progress and hp-key link are (thorough tier); QuicSession.handle_packet (every coalesced packet dissected with the CURRENT keys and suite), handle_crypto_frame "
+              "(keys follow the negotiated suite) and check_key_epoch are under contract; the composition into 'one output datagram per input datagram' is on paper; AEADs are uninterpreted",
    design_ref="DESIGN.md 4 C02",
    explanation="All links except the dissector's long/short header field extraction are proved per function; the dissector is listed as unverified and the end-to-end composition is a paper argument.",
    assumptions=[], trusted_base=["cryptography AEADs", "struct (dissector, not under contract)"],
